@@ -5,7 +5,7 @@
          Spec/Glob.v         (declarative glob semantics) *)
 From Coq Require Import List NArith Bool String.
 From GoGit Require Import Base.Out Model.Gitignore Spec.Glob Spec.GitIgnore
-     Proofs.C49Total Proofs.C49Wild Proofs.C49Scope Proofs.C49Git.
+     Proofs.C49Total Proofs.C49Wild Proofs.C49Scope Proofs.C49Git Proofs.C49Names.
 Import ListNotations.
 Local Open Scope N_scope.
 Local Open Scope string_scope.
@@ -78,10 +78,10 @@ Print Assumptions C49_excluded_parent.
      forall excl fs path isdir, ignored excl fs path isdir = git_ignored excl fs path isdir.
    It is false of the faithful model; each witness below is replayed on the
    real code and on the git binary by the check (corpus/C49). *)
-Theorem C49_eq_git_refuted : exists excl fs path isdir,
+Theorem C49_pattern_eq_git_refuted : exists excl fs path isdir,
   ignored excl fs path isdir <> git_ignored excl fs path isdir.
 Proof. exact eq_git_refuted. Qed.
-Print Assumptions C49_eq_git_refuted.
+Print Assumptions C49_pattern_eq_git_refuted.
 
 (* the suite's always-failing conformance case TestIgnoreDoubleStarPrefix:
    pattern foo**/bar, path foobar — git 2.39.5 strips the literal prefix "foo"
@@ -91,7 +91,21 @@ Example C49_double_star_prefix_refuted :
   git_ignored None [([], bytes_of_string "foo**/bar")] [bytes_of_string "foobar"] false = true.
 Proof. vm_compute. split; reflexivity. Qed.
 
-(*NAMES_THM*)
+(* Partial statement: ignore files made of plain name patterns — no negation,
+   no slash except an optional trailing one, glob inside the fragment, nothing
+   for the two line readers to disagree on (names_file) — give the same verdict
+   in go-git and in git, for every path at every depth, with ignore files at
+   every level and info/exclude.
+   Missing for the full statement: negated patterns (go-git's matching of
+   ancestor components re-includes differently), patterns with inner slashes
+   and the ** forms, the line-reading corner cases; the witnesses above show
+   each of them really differs. *)
+Theorem C49_pattern_eq_git_partial : forall excl fs path isdir,
+  names_case excl fs = true ->
+  ignored excl fs path isdir = git_ignored excl fs path isdir.
+Proof. exact names_eq_git. Qed.
+Print Assumptions C49_pattern_eq_git_partial.
+
 (* ---- non-vacuity --------------------------------------------------- *)
 
 Example C49_fragment_example :
@@ -101,7 +115,21 @@ Example C49_fragment_example :
             wildmatch (bytes_of_string "a[!b-d]?\**.[ch]") (bytes_of_string "acz*foo.c") = false.
 Proof. eexists. vm_compute. repeat split; reflexivity. Qed.
 
-(*NAMES_EX*)
+Example C49_names_example :
+  names_case (Some (bytes_of_string "*.o
+build/
+")) [([], bytes_of_string "*.[oa]
+tmp?
+"); ([bytes_of_string "src"], bytes_of_string "gen*/
+")] = true /\
+  ignored (Some (bytes_of_string "*.o
+build/
+")) [([], bytes_of_string "*.[oa]
+tmp?
+"); ([bytes_of_string "src"], bytes_of_string "gen*/
+")] [bytes_of_string "src"; bytes_of_string "gen1"; bytes_of_string "x.c"] false = true.
+Proof. vm_compute. split; reflexivity. Qed.
+
 Example C49_excluded_parent_example :
   ignored None [([], bytes_of_string "build
 "); ([bytes_of_string "build"], bytes_of_string "!keep
